@@ -14,6 +14,7 @@ import SimVerif.Lemmas.HttpServerCb
 import SimVerif.Lemmas.HttpServerRun
 import SimVerif.Lemmas.HttpServerReq
 import SimVerif.Lemmas.HttpServerSafe
+import SimVerif.Lemmas.HttpServerStop
 
 namespace SimVerif.HttpServer
 
@@ -314,6 +315,24 @@ theorem C16_stop (s : Srv) :
   rw [closeConnection_eq]
   simp [closeActs, hc]
 
+/-- What the action `closeListen` of `stop()` does in the world (Drv/HttpSrv.lean maps it to the
+    acceptor's `close()`, `NetSt.accClose` of SimVerif/Tcp.lean): the listen socket is closed,
+    unbound and no longer listening; its registry entry is gone, so — the listen socket having
+    been the only holder of its endpoint — a later connect to that endpoint finds no listener
+    (`internal_connect` returns no channel: refused) and the port can be bound again. Side
+    condition: the acceptor was bound (the constructor binds it before it listens). -/
+theorem C16_stop_frees_port (n : NetSt) (now : Int) (name : String) (s : TcpSock)
+    (hs : n.tcp? name = some s) (hb : s.bound.isDefault = false)
+    (honly : ∀ e ∈ n.reg.tcp, e.1 = s.bound → e.2 = name) :
+    (∃ s', (n.accClose now name).1.tcp? name = some s' ∧ s'.isOpen = false ∧
+        s'.isListening = false ∧ s'.bound = {}) ∧
+    (n.accClose now name).1.reg.tcp.lookup s.bound = none ∧
+    (∀ c : String, ((n.accClose now name).1.internalConnect c s.bound).2.2 = none) ∧
+    (∀ other : String, 1024 ≤ s.bound.port →
+      (simBind (n.accClose now name).1.reg.tcp (n.accClose now name).1.reg.nextPort other s.bound).2.2
+        = .ok s.bound) :=
+  ⟨accClose_socket n now name s hs, accClose_port_free n now name s hs hb honly⟩
+
 /-! ## non-vacuity: concrete instances -/
 
 section examples
@@ -399,6 +418,21 @@ example : contentHandler 300 [(str "range", str "bytes=0-9223372036854775807")] 
     contentHandler 300 [(str "range", str "bytes=x-y")] = .error .throw ∧
     contentHandler 300 [(str "range", str "bytes=5-2")] = .error .throw := by
   refine ⟨?_, ?_, ?_⟩ <;> decide +kernel
+
+/-- `C16_stop_frees_port` on a concrete world: a listening acceptor with an accept outstanding;
+    before the close a connect finds it, afterwards it does not and the port can be bound -/
+def exEp : Ep := { addr := "10.0.1.1", port := 8080 }
+def exSock : TcpSock :=
+  { node := "n1", isOpen := true, bound := exEp, fwd := some 0, acc := some { queueLimit := 20, acceptOp := some (.into 3000000 "w0.c" true) } }
+def exNet : NetSt :=
+  { reg := { tcp := [(exEp, "w0.l")] }, fwds := [some "w0.l"], tcps := [("w0.l", exSock), ("w0.c", { node := "n1" })] }
+
+example : exSock.isListening = true ∧ (exNet.internalConnect "w0.c" exEp).2.2 ≠ none ∧
+    ((exNet.accClose 0 "w0.l").1.internalConnect "w0.c" exEp).2.2 = none ∧
+    (simBind (exNet.accClose 0 "w0.l").1.reg.tcp (exNet.accClose 0 "w0.l").1.reg.nextPort "a0" exEp).2.2 = .ok exEp := by
+  have h := C16_stop_frees_port exNet 0 "w0.l" exSock rfl (by decide +kernel) (by decide +kernel)
+  refine ⟨by decide +kernel, by decide +kernel, h.2.2.1 "w0.c", ?_⟩
+  exact h.2.2.2 "a0" (by decide +kernel)
 
 end examples
 
